@@ -274,10 +274,18 @@ class Exec:
         return out
 
     def iter_for_each(self, st, itv, clo):
-        """`iter.for_each(clo)`: recognised when the closure only stores a loop-invariant value through a slice item (a fill)"""
+        """`iter.for_each(clo)`: a fill when the closure only stores a loop-invariant value through a slice item; otherwise the
+        variables the closure updates through its captures are loop-carried and summarised like those of a `for` loop"""
+        if isinstance(clo, tuple) and clo[0] == "ref":
+            clo = self.deref_val(st, clo)   # `for_each(&mut f)`
         if isinstance(itv, tuple) and itv[0] == "chain":
             self.iter_for_each(st, itv[1], clo)
             self.iter_for_each(st, itv[2], clo)
+            return UNIT
+        items = self.const_items(st, itv)
+        if items is not None:
+            for it_ in items:
+                self.call_closure(st, clo, [it_])
             return UNIT
         self.nloop += 1
         loopid = self.nloop
@@ -285,22 +293,53 @@ class Exec:
         iv = ("ivar", loopid)
         if item is None:
             raise Unsupported("for_each over an unrecognised iterator: %s" % show(itv)[:80])
+        from terms import subterms
+        saved_sites = list(self.sites)
         s2 = st.fork()
         before = dict(s2.store.m)
         self.call_closure(s2, clo, [item])
-        from terms import subterms
+        self.sites = saved_sites
         b = self.ivar_bounds[iv]
+        changed = {}
         for k, v in s2.store.m.items():
-            if not isinstance(k[0], str) or before.get(k) == v:
+            if before.get(k) == v:
                 continue
             old = self._try_read(st, k)
             if old is None:
-                old = ("pre", pstr(k))
-            if isinstance(v, tuple) and v[0] == "store" and v[1] == old and v[2] == iv and not any(x == iv or x == ("pre", pstr(k)) for x in subterms(v[3])):
-                st.store.write(k, ("fill", old, b["start"], b["end"], v[3]))
-            else:
-                raise Unsupported("for_each closure is not a fill of a slice (%s := %s)" % (pstr(k), show(v)[:60]))
-        st.asserts = s2.asserts
+                if isinstance(k[0], str):
+                    old = ("pre", pstr(k))
+                else:
+                    continue  # a temporary of the closure's own frame
+            changed[k] = old
+        is_fill = bool(changed) and all(isinstance(k[0], str) and isinstance(s2.store.m[k], tuple) and s2.store.m[k][0] == "store" and s2.store.m[k][1] == old
+                                        and s2.store.m[k][2] == iv and not any(x == iv or x == ("pre", pstr(k)) for x in subterms(s2.store.m[k][3]))
+                                        for k, old in changed.items())
+        if is_fill:
+            for k, old in changed.items():
+                st.store.write(k, ("fill", old, b["start"], b["end"], s2.store.m[k][3]))
+            self.call_closure(st.fork(), clo, [item])   # record the body's sites once, with the loop variable symbolic
+            st.asserts = s2.asserts
+            return UNIT
+        if any(isinstance(k[0], str) for k in changed):
+            raise Unsupported("for_each closure writes to state other than a slice fill (%s)" % ", ".join(pstr(k) for k in changed if isinstance(k[0], str)))
+
+        def lvname(k):
+            return ".".join(["L%d" % k[0][2]] + [str(x) for x in k[1:]])
+        s3 = st.fork()
+        for k in changed:
+            s3.store.write(k, ("lv", loopid, lvname(k)))
+        self.call_closure(s3, clo, [item])
+        summaries = {}
+        for k, old in changed.items():
+            lv = ("lv", loopid, lvname(k))
+            v = s3.store.m.get(k)
+            if v is None:
+                v = self._try_read(s3, k)
+            summ = self.classify_carried(v, lv, old, loopid, lvname(k))
+            summaries[lvname(k)] = summ
+            st.store.write(k, summ)
+        st.asserts = s3.asserts
+        self.loop_info[loopid] = {"fn": self.cur_fn_label, "header": None, "item": item, "changed": list(summaries), "summaries": summaries}
         return UNIT
 
     def summarize_loop(self, fr, st, h):
@@ -321,6 +360,21 @@ class Exec:
                 self.write_place(fr, st, s_["place"], self.rvalue(fr, st, s_["rv"]))
         it = self.operand(fr, st, t["args"][0])
         itv = self.deref_val(st, self.deref_val(st, it))
+
+        if isinstance(itv, tuple) and itv[0] == "array":
+            # `for x in [a, b, c]`: a fixed number of iterations, executed one after the other (no summary needed)
+            for elem in itv[1:]:
+                self.write_place(fr, st, t["dest"], ("adt", "Option", (1, "Some"), (("0", elem),), True))
+                self.active_loops.add((fr.id, h))
+                try:
+                    out = self.run(fr, t["target"], st, h)
+                finally:
+                    self.active_loops.discard((fr.id, h))
+                if out is None or getattr(out, "returned", False):
+                    raise HasLoop("%s: loop body at bb%d leaves the loop irregularly" % (fn.label, h))
+                st = out
+            self.write_place(fr, st, t["dest"], ("adt", "Option", (0, "None"), (), True))
+            return st, t["target"]
 
         def parts(v):
             if isinstance(v, tuple) and v[0] == "chain":
@@ -1441,7 +1495,7 @@ class Exec:
             return self.iter_fold(st, args[0], args[1], clo, self.cur_fn_label)
         if re.search(r"iter::Iterator>::sum$|iter::Iterator::sum$|iter::traits::accum::Sum.*>::sum$", nn) and len(args) == 1:
             return self.iter_fold(st, args[0], cf(0.0), lambda state, acc, item: fold("+", acc, self.deref_val(state, item)), self.cur_fn_label)
-        if re.search(r"iter::Iterator>::for_each$|iter::Iterator::for_each$", nn) and len(args) == 2 and isinstance(args[1], tuple) and args[1][0] == "closure":
+        if re.search(r"iter::Iterator>::for_each$|iter::Iterator::for_each$", nn) and len(args) == 2 and isinstance(args[1], tuple) and args[1][0] in ("closure", "ref"):
             return self.iter_for_each(st, args[0], args[1])
         if re.search(r"IntoIterator.*::into_iter$", callees.strip_turbofish(n)):
             a0 = args[0]
